@@ -18,10 +18,12 @@ const (
 	OpFailNew
 	OpSteps
 	OpMutateCfg
+	OpMark   // concurrent plans: everything quiesces, the per-channel load is remembered
+	OpSpread // concurrent plans: everything quiesces; the load since the mark must have spread evenly
 	nOpKinds
 )
 
-var opNames = [...]string{"resolver", "reserr", "conn", "pick", "done", "advance", "cancel", "failnew", "steps", "mutatecfg"}
+var opNames = [...]string{"resolver", "reserr", "conn", "pick", "done", "advance", "cancel", "failnew", "steps", "mutatecfg", "mark", "spread"}
 
 //go:norace
 func (k OpKind) String() string { return opNames[k] }
@@ -702,6 +704,59 @@ func Generate(r *rand.Rand, profile string, concurrent bool, av Avoid) *Plan {
 		frag = append(frag, tail...)
 		frag = append(frag, Op{K: OpSteps, A: 30}, Op{K: OpConn, A: -1, B: ConnProgress, N: st()}, Op{K: OpConn, A: -1, B: ConnProgress, N: st()}, Op{K: OpSteps, A: 40})
 		at := 3 + r.IntN(len(p.Ops)-3)
+		ops := append([]Op{}, p.Ops[:at]...)
+		ops = append(ops, frag...)
+		p.Ops = append(ops, p.Ops[at:]...)
+	}
+	// Directed concurrent fragment: a pool at its maximum size, every channel
+	// READY, then a volley of unkeyed calls started together with nothing else
+	// going on: whatever the interleaving, least-loaded placement is atomic, so
+	// the calls spread evenly (OpMark / OpSpread).
+	if concurrent && (profile == "load" || profile == "growth") && !p.Cfg.RR && r.IntN(3) == 0 && len(p.Ops) > 4 {
+		n := 2 + r.IntN(2)
+		p.Cfg.Min, p.Cfg.Max = uint32(n), uint32(n)
+		p.Cfg.WM = 1 + uint32(r.IntN(2))
+		frag := []Op{}
+		for c := 0; c < n; c++ {
+			frag = append(frag, Op{K: OpConn, A: c, B: ConnProgress}, Op{K: OpConn, A: c, B: ConnProgress})
+		}
+		frag = append(frag, Op{K: OpMark})
+		for c := 0; c < 2*n+r.IntN(3); c++ {
+			frag = append(frag, Op{K: OpPick, B: MPlain, N: r.IntN(4)})
+		}
+		frag = append(frag, Op{K: OpSpread})
+		at := 1 + r.IntN(2)
+		ops := append([]Op{}, p.Ops[:at]...)
+		ops = append(ops, frag...)
+		p.Ops = append(ops, p.Ops[at:]...)
+	}
+	// Directed concurrent fragment: round-robin BIND calls start while a refresh
+	// of a channel whose old connection has already left READY completes.
+	if concurrent && profile == "rr" && r.IntN(3) == 0 && len(p.Ops) > 4 {
+		p.Cfg.UCalls, p.Cfg.UMs = 1, 10
+		st := func() int { return r.IntN(5) }
+		frag := []Op{
+			{K: OpConn, A: 0, B: ConnProgress}, {K: OpConn, A: 0, B: ConnProgress},
+			{K: OpConn, A: 1, B: ConnProgress}, {K: OpConn, A: 1, B: ConnProgress},
+			{K: OpSteps, A: 80},
+			{K: OpPick, B: MPlain, D: 1, E: 1, N: 40},
+			{K: OpAdvance, E: 13},
+			{K: OpDone, A: -1, B: OutClientDE, N: 60},  // refresh starts
+			{K: OpConn, A: -2, B: ConnFail, N: 60},     // the old connection leaves READY
+			{K: OpConn, A: -1, B: ConnProgress, N: 60}, // replacement: connecting
+			{K: OpPick, B: MBind, Keys: []int{0}, N: st()},
+			{K: OpPick, B: MBind, Keys: []int{1}, N: st()},
+			{K: OpConn, A: -1, B: ConnProgress, N: st()}, // replacement READY: takeover
+			{K: OpPick, B: MBind, Keys: []int{2}, N: st()},
+		}
+		if r.IntN(2) == 0 {
+			// a waiting BIND gives up (context cancelled) while the takeover runs
+			frag[len(frag)-2], frag[len(frag)-1] = frag[len(frag)-1], frag[len(frag)-2]
+			frag = append(frag[:len(frag)-1], Op{K: OpCancel, A: r.IntN(3), N: st()}, frag[len(frag)-1], Op{K: OpCancel, A: r.IntN(3), N: st()})
+			p.Verbose = p.Verbose || r.IntN(2) == 0
+		}
+		frag = append(frag, Op{K: OpSteps, A: 60})
+		at := 1 + r.IntN(2)
 		ops := append([]Op{}, p.Ops[:at]...)
 		ops = append(ops, frag...)
 		p.Ops = append(ops, p.Ops[at:]...)
